@@ -555,6 +555,13 @@ def bisect(ex, st, t, x, right, line):
 
 
 def method(ex, base, attr, args, st, node):
+    if isinstance(base, S.ObjV):
+        # an assumed model of a record's method, declared by the contract as externals["Cls.method"]
+        ext = getattr(ex.c.cls, "externals", None) or {}
+        key = f"{base.cls}.{attr}"
+        if key in ext:
+            ex.assumed.add(f"{key}: {(ext[key].__doc__ or '').strip()}")
+            return E.wrap_any(ext[key](ex, st, [base] + list(args), {}, node))
     if isinstance(base, SliceV) and attr == "indices":
         n = S.as_int(ex.need_int(args[0], st, node))
         ex.oblige(st, "safe", "slice-step-nonzero", S.step_ok(base), node.lineno,
